@@ -14,11 +14,11 @@ import (
 // hardSites is the closed list of raise sites that the property (and the
 // README's option documentation) declares non-suppressible.
 var hardSites = []string{
-	"could not find jsonpath variable",     // unknown variable
-	"without time zone usage",              // casts / comparisons that need a time zone
+	"could not find jsonpath variable",         // unknown variable
+	"without time zone usage",                  // casts / comparisons that need a time zone
 	".datetime(template) is not yet supported", // unsupported datetime template
-	"NUMERIC precision",                    // invalid decimal precision
-	"NUMERIC scale",                        // invalid decimal scale
+	"NUMERIC precision",                        // invalid decimal precision
+	"NUMERIC scale",                            // invalid decimal scale
 	"context canceled", "context deadline exceeded",
 }
 
@@ -219,6 +219,112 @@ var checkLeak = register("c08.leak", func(c LeakCase) *Violation {
 	return nil
 })
 
+// checkPartial: "where the non-silent run fails with a suppressible error the
+// silent run returns ... the items found before the failure". The reference
+// model evaluates the path in the documented order and stops at the first
+// error, so its items are exactly those found before the failure.
+var checkPartial = register("c08.partial", func(c ExecCase) *Violation {
+	v, _ := checkPartialFacts(c)
+	return v
+})
+
+func checkPartialFacts(c ExecCase) (*Violation, silentFacts) {
+	var f silentFacts
+	pr, err := prepare(c)
+	if err != nil {
+		return violf("harness: %q does not parse: %v", c.Path, err), f
+	}
+	ev := c08Ev
+	if ev == nil {
+		ev = &Ev{Prop: "C08"}
+	}
+	var quirks []string
+	if ev.quirk("exists_unary_sign_nonnumeric") {
+		quirks = append(quirks, "D17b")
+	}
+	var vars map[string]any
+	if pr.vars != nil {
+		vars = map[string]any(pr.vars)
+	}
+	mr := RunModel(pr.tree, pr.doc, c.Opts, vars, false, quirks...)
+	if (mr.Err != nil && mr.Err.dontCare) || mr.OrderOpen {
+		return nil, f
+	}
+	if mr.SawD9 && ev.quirk("datetime_vs_nondatetime_invalid") {
+		f.d9 = true
+		return nil, f
+	}
+	f.d17b = mr.UsedD17b
+	vq := RunQuery(pr.ctx, pr.p, pr.doc, pr.opts(false)...)
+	sq := RunQuery(pr.ctx, pr.p, pr.doc, pr.opts(true)...)
+	sf := RunFirst(pr.ctx, pr.p, pr.doc, pr.opts(true)...)
+	if vq.Panic != "" || sq.Panic != "" || sf.Panic != "" {
+		return violf("%q on %s panicked: %s%s%s", c.Path, c.Doc, vq.Panic, sq.Panic, sf.Panic), f
+	}
+	f.class = vq.Class
+	f.verboseErr = vq.Class != EOK
+	want := mRenderSeq(mr.Items)
+	at := fmt.Sprintf("Query(%q, %s)", c.Path, c.Doc)
+	switch {
+	case mr.Err != nil && mr.Err.hard:
+		if vq.Class != EHard || sq.Class != EHard || sf.Class != EHard {
+			return violf("%s: a non-suppressible error is prescribed (%s); verbose %s, silent %s, silent First %s", at, mr.Err.msg, vq, sq, sf), f
+		}
+	case mr.Err != nil:
+		if vq.Class != ESupp {
+			return violf("%s: a suppressible error is prescribed (%s) after the items %v, the non-silent run returned %s", at, mr.Err.msg, want, vq), f
+		}
+		if sq.Class != EOK || !sameSeq(want, RenderSeq(sq.Items, true)) {
+			return violf("%s fails with a suppressible error (%s); the items found before the failure are %v but with WithSilent it returned %s", at, mr.Err.msg, want, sq), f
+		}
+	default:
+		if vq.Class != EOK || sq.Class != EOK || !sameSeq(want, RenderSeq(sq.Items, true)) || !sameSeq(want, RenderSeq(vq.Items, true)) {
+			return violf("%s: the rules give %v without error; verbose %s, silent %s", at, want, vq, sq), f
+		}
+	}
+	if mr.Err == nil || !mr.Err.hard {
+		wantFirst := "null"
+		if len(want) > 0 {
+			wantFirst = want[0]
+		}
+		if sf.Class != EOK || (len(want) == 0 && sf.Item != nil) || (len(want) > 0 && Render(sf.Item, true) != wantFirst) {
+			return violf("First(%q, %s) with WithSilent: the items found before the failure are %v, First returned %s", c.Path, c.Doc, want, sf), f
+		}
+	}
+	return nil, f
+}
+
+// partialCases: operand expressions that emit a value and then fail, at every
+// position an operand can take; plus multi-subscript accessors whose later
+// subscript fails after an earlier one selected elements.
+func partialCases() []ExecCase {
+	doc := `{"arr":[10,20,30],"i":[1,"x"],"j":[0,"y",2],"idx":[1],"k":[1,2],"one":[1],"o":[{"a":1},{"b":2},{"a":3}]}`
+	emitFail := []string{`$.i.integer()`, `$.i.double()`, `$.i[*].abs()`, `-$.i[*]`, `+$.j[*]`, `$.idx[0,3]`, `$.j[*].number()`, `$.i.ceiling()`, `$.i[0 to 1].floor()`, `$.i[*].bigint()`, `$.o[*].a`, `$.idx[0 to 2]`,
+		// controls: a single value, several values, no value, immediate failure
+		`$.one[0]`, `$.k[*]`, `$.nokey`, `$.i[1].double()`, `$.one.integer()`}
+	shapes := []string{"$.arr[%s]", "$.arr[0 to %s]", "$.arr[%s to 2]", "$.arr[0, %s]", "$.arr[%s, 0]", "$.arr[0 to 1, %s, 1]", "%s", "%s.type()", "-(%s)", "(%s + 1)", "(1 - %s)", "$.arr[*] ? (@ > %s)", "$ ? (%s == 1).idx", "%s == 1", "exists(%s)", "$ ? (exists(%s)).idx",
+		"$.arr[%s].double()", "$ ? (@.arr[%s] == 20).idx", "$.arr[*] ? (@ == %s * 10)", "(%s == 1) is unknown", "$.arr[%s] ? (@ > 10)", "$.arr[last - %s]", "$.arr[%s, %s]"}
+	var out []ExecCase
+	for _, sh := range shapes {
+		for _, e := range emitFail {
+			for _, mode := range []string{"", "strict "} {
+				for _, un := range []bool{false, true} {
+					out = append(out, ExecCase{Path: mode + strings.ReplaceAll(sh, "%s", e), Doc: doc, Opts: Opts{UseNumber: un}})
+				}
+			}
+		}
+	}
+	// a later subscript fails after earlier ones selected elements
+	for _, p := range []string{"$[0, 5]", "$[0 to 1, 7, 1]", "$[1, $v]", "$[0, 9].a", "$[2, 1, 0, 3]", "$[0 to 9]", "$[1 to 0, 0]", `$[0, "a"]`, "$[0, 1.5, 7]", "$[0, last + 1]", "$[last, $.nokey]", "$[0, 1][0, 5]", "$[*][0, 5]", "$[0, 5] ? (@ > 0)", "$[0, 5].type()", "$[0 to last, 5].size()"} {
+		for _, d := range []string{`[10,20,30]`, `[{"a":1},{"a":2},3]`, `[[1,2],[3]]`, `[]`, `7`} {
+			for _, mode := range []string{"", "strict "} {
+				out = append(out, ExecCase{Path: mode + p, Doc: d, Opts: Opts{HasVars: true, Vars: map[string]string{"v": `"s"`}}})
+			}
+		}
+	}
+	return out
+}
+
 func hardErrorCases() []ExecCase {
 	// every documented non-suppressible raise site at several positions
 	hard := []string{`$missing`, `"12:00:00".time_tz()`, `"2015-08-01".timestamp_tz()`, `"2015-08-01 12:00:00+01".timestamp()`, `"2015-08-01".datetime("YYYY")`, `(1).decimal(0)`, `(1).decimal(1,2000)`, `(1).decimal(1001)`, `(1).decimal(1,-1001)`, `("12:00:00".time() < "12:00:00+01".time_tz())`}
@@ -272,6 +378,21 @@ func TestC08(t *testing.T) {
 			}
 		}
 		ev.Exhaustive("raise_site_by_position_table", int64(len(cs)))
+	})
+	t.Run("items_before_the_failure", func(t *testing.T) {
+		b := ev.enum(t)
+		cs := partialCases()
+		for i, c := range cs {
+			if !mine(i) {
+				continue
+			}
+			v, f := checkPartialFacts(c)
+			record("partial", c, f)
+			if !b.Check("c08.partial", c, v) {
+				return
+			}
+		}
+		ev.Exhaustive("emit_then_fail_operand_by_position_table", int64(len(cs)))
 	})
 	pcfg := GenCfg{MaxNodes: 12, HardErrPct: 15, ErrBias: true}
 	dcfg := DocCfg{HugeNums: true}
